@@ -402,7 +402,7 @@ impl Xot {
             return Ok(local_name.to_string());
         }
         // look up the prefix for the namespace
-        if let Some(prefix) = self.prefix_for_namespace(node, namespace) {
+        if let Some(prefix) = self.prefix_for_name_namespace(node, namespace) {
             let prefix = self.prefix_str(prefix);
             if !prefix.is_empty() {
                 Ok(format!("{}:{}", prefix, local_name))
@@ -506,6 +506,23 @@ impl Xot {
             .into_iter()
             .filter(|(_, ns)| unresolved_namespaces.contains(ns))
             .collect::<Prefixes>()
+    }
+
+    // The prefix to write a name in `namespace` with, when `node` is the node
+    // that carries the name. The name of an attribute node cannot use the
+    // default namespace: an unprefixed attribute is in no namespace.
+    pub(crate) fn prefix_for_name_namespace(
+        &self,
+        node: Node,
+        namespace: NamespaceId,
+    ) -> Option<PrefixId> {
+        if self.is_attribute_node(node) {
+            self.namespaces_in_scope(node)
+                .find(|(prefix, ns)| *ns == namespace && *prefix != self.empty_prefix())
+                .map(|(prefix, _)| prefix)
+        } else {
+            self.prefix_for_namespace(node, namespace)
+        }
     }
 
     /// Find prefix for a namespace in node or ancestors.
